@@ -121,6 +121,7 @@ def atom(s):
 
 
 COMM = {'or', 'and_', 'xor'}
+STRUCT_FACTORIES = ('structs', '_structs')
 
 
 def nf(node, env=None):
@@ -238,8 +239,17 @@ def _nf(n, env):
         if isinstance(base, ast.Name) and base.id in ('self', 'cls'):
             return atom(n.attr)
         if isinstance(base, ast.Name) and base.id in env.defs:
-            # local alias of a container: field access
+            # local alias: look through it (x = f(); x.name  ==  f().name)
+            d = env.defs[base.id]
+            if isinstance(d, ast.Call) and env.depth < 12:
+                env.depth += 1
+                try:
+                    return _term(n.attr, [pstr(_nf(d, env))])
+                finally:
+                    env.depth -= 1
             return atom(n.attr)
+        if isinstance(base, ast.Call):
+            return _term(n.attr, [pstr(_nf(base, env))])
         # header.e_shoff / ctx.pr_datasz / self.header.x -> field name
         return atom(n.attr)
     if isinstance(n, ast.Call):
@@ -254,6 +264,9 @@ def _nf(n, env):
             return _term(f.id, args)
         if isinstance(f, ast.Attribute):
             recv = pstr(_nf(f.value, env))
+            if recv in STRUCT_FACTORIES:
+                # struct factories are configuration, not data: Elf_word('') of whichever factory
+                return _term(f.attr, args)
             return _term(f.attr, [recv] + args)
         return _term('call', [pstr(_nf(f, env))] + args)
     if isinstance(n, ast.IfExp):
@@ -264,6 +277,13 @@ def _nf(n, env):
         return _term('tuple', [pstr(_nf(e, env)) for e in n.elts])
     if isinstance(n, ast.Starred):
         return _term('star', [pstr(_nf(n.value, env))])
+    if isinstance(n, (ast.ListComp, ast.GeneratorExp, ast.SetComp)):
+        parts = [pstr(_nf(n.elt, env))]
+        for g in n.generators:
+            parts.append('for(%s,%s)' % (pstr(_nf(g.target, env)), pstr(_nf(g.iter, env))))
+            for c in g.ifs:
+                parts.append('if(%s)' % cond_str(c, env))
+        return _term('comp', parts)
     if isinstance(n, ast.JoinedStr):
         return atom('fstring')
     if isinstance(n, ast.Lambda):
